@@ -236,6 +236,16 @@ Proof.
   apply qlt_bool_iff in H. destruct (lbq_sound lo e l E r r' H0 Hr). split; lra.
 Qed.
 
+(* one argument grows, the others stay: the one-dimensional reading of monotonicity *)
+Definition upd (r : nat -> Q) (i : nat) (v : Q) : nat -> Q := fun j => if Nat.eqb j i then v else r j.
+
+Theorem expr_mono_var e : okb e = true ->
+  forall r i v v', (forall j, 0 <= r j) -> 0 <= v -> v <= v' ->
+  0 <= eval (upd r i v) e /\ eval (upd r i v) e <= eval (upd r i v') e.
+Proof.
+  intros H r i v v' H0 Hv Hvv. apply expr_mono_nonneg; [exact H| |]; intro j; unfold upd; destruct (Nat.eqb j i); try apply H0; lra.
+Qed.
+
 (* --- guards (asserts of the Python functions) and guarded cost functions *)
 Inductive guard := GIn (e : expr) (vals : list Q).
 
@@ -262,8 +272,6 @@ Definition V_groups := 9%nat.  (* groups *)
 Definition V_theta := 10%nat.  (* w_theta_alpha *)
 
 Definition env_of (l : list Q) : nat -> Q := fun i => nth i l 0.
-
-Definition upd (r : nat -> Q) (i : nat) (v : Q) : nat -> Q := fun j => if Nat.eqb j i then v else r j.
 
 (* "non-empty layer at non-zero bit-widths": every size >= 1, bit-widths >= 2, bias flag >= 0 *)
 Definition lo_nonempty : nat -> Q := fun i =>
